@@ -776,6 +776,131 @@ Definition map_of (st : state) (v : value) : option (nat * list entry) :=
 (* the key copy made on insertion and by `keys` *)
 Definition key_of (st : state) (v : value) : res tree := freeze (fuel_of (st_heap st)) (st_heap st) v.
 
+(* ------------------------------------------------------------------------------------ *)
+(* sort of a TABLE - an array whose elements are arrays ("rows"), ops_generic.cpp:736-817 *)
+
+(* value::type() (value.h:61-62): an empty value has the type NOTHING *)
+Inductive vtag := GNil | GNum | GBool | GStr | GCode | GArr | GMap.
+Definition tag_eqb (a b : vtag) : bool :=
+  match a, b with
+  | GNil, GNil | GNum, GNum | GBool, GBool | GStr, GStr | GCode, GCode | GArr, GArr | GMap, GMap => true
+  | _, _ => false
+  end.
+Definition vtag_of (h : heap) (v : value) : res vtag :=
+  match v with
+  | VNil => Ok GNil | VNum _ => Ok GNum | VBool _ => Ok GBool | VStr _ => Ok GStr | VCode _ => Ok GCode
+  | VRef a => match nth_error h a with Some (CArr _) => Ok GArr | Some (CMap _) => Ok GMap | _ => UB end
+  end.
+
+(* less_scalar (ops_generic.cpp:771-775): NaN in front of every other number, otherwise `<` of
+   the floats (-0 and 0 are equal, two NaN are equal) *)
+Definition sc_rank (s : scalar) : Z * Z :=
+  match s with SNaN _ => (0, 0) | SNInf => (1, 0) | SHalf t => (2, t) | SNegZero => (2, 0) | SPInf => (3, 0) end.
+Definition sc_lt (x y : scalar) : bool :=
+  (fst (sc_rank x) <? fst (sc_rank y)) || ((fst (sc_rank x) =? fst (sc_rank y)) && (snd (sc_rank x) <? snd (sc_rank y))).
+(* std::string operator< : lexicographic on the (unsigned) bytes *)
+Definition str_lt (a b : bytes) : bool := negb (lex_le b a).
+
+(* an element of a row as the comparator looks at it (788-797): strings and scalars are compared,
+   every other element (nil, boolean, code, nested array, HashMap) is passed over *)
+Inductive skey := KStr (s : bytes) | KNum (s : scalar) | KSkip.
+Definition skey_of (v : value) : skey := match v with VStr s => KStr s | VNum s => KNum s | _ => KSkip end.
+
+(* one position of two rows: None = the C++ reads a string / a float out of a value of another type *)
+Definition k3 (x y : skey) : option comparison :=
+  match x, y with
+  | KStr s, KStr t => Some (if str_lt s t then Lt else if str_lt t s then Gt else Eq)
+  | KNum s, KNum t => Some (if sc_lt s t then Lt else if sc_lt t s then Gt else Eq)
+  | KSkip, _ => Some Eq
+  | _, _ => None
+  end.
+(* comp(a, b) of the lambda handed to std::sort, on two rows (783-799): the first position that
+   differs decides (sort_flag if a is the smaller one, !sort_flag if b is), equal rows give false.
+   None = undefined behaviour: b_arr[idx] beyond the end of b, or k3 undefined *)
+Fixpoint row_lt (asc : bool) (a b : list skey) : option bool :=
+  match a with
+  | [] => Some false
+  | x :: a' =>
+      match b with
+      | [] => None
+      | y :: b' => match k3 x y with
+                   | Some Lt => Some asc
+                   | Some Gt => Some (negb asc)
+                   | Some Eq => row_lt asc a' b'
+                   | None => None
+                   end
+      end
+  end.
+
+Definition row_of (h : heap) (v : value) : option (list value) :=
+  match v with
+  | VRef r => match nth_error h r with Some (CArr l) => Some l | _ => None end
+  | _ => None
+  end.
+(* comp(a, b) on two elements of the table *)
+Definition vrow_lt (h : heap) (asc : bool) (a b : value) : option bool :=
+  match row_of h a, row_of h b with
+  | Some ra, Some rb => row_lt asc (map skey_of ra) (map skey_of rb)
+  | _, _ => None
+  end.
+Definition vrow_ltb (h : heap) (asc : bool) (a b : value) : bool :=
+  match vrow_lt h asc a b with Some true => true | _ => false end.
+
+(* d_array::check_type(types) on one row (d_array.cpp:98-122): a wrong size is reported once, otherwise
+   every position of another type is reported *)
+Definition check_row (h : heap) (types : list vtag) (row : list value) : res (list diag) :=
+  if negb (Nat.eqb (length row) (length types)) then Ok [DExpectedArraySizeMissmatch] else
+  rbind (res_map (vtag_of h) row) (fun tags =>
+    Ok (repeat DExpectedArrayTypeMissmatch
+          (length (filter (fun p => negb (tag_eqb (fst p) (snd p))) (combine tags types))))).
+(* ops_generic.cpp:762-766: the loop over the rows returns at the first row that does not pass *)
+Fixpoint check_rows (h : heap) (types : list vtag) (rows : list (list value)) : res (list diag) :=
+  match rows with
+  | [] => Ok []
+  | r :: rows' => rbind (check_row h types r)
+                        (fun ds => match ds with [] => check_rows h types rows' | _ => Ok ds end)
+  end.
+
+Fixpoint pairwise {A} (R : A -> A -> bool) (l : list A) : bool :=
+  match l with [] => true | x :: l' => forallb (R x) l' && pairwise R l' end.
+Definition veqb (a b : value) : bool := match a, b with VRef p, VRef q => Nat.eqb p q | _, _ => false end.
+
+(* TSorted l' : the new content of the table - the SAME element values (references to the row cells) in another order.
+   TRefused ds: the type checks of 753-767 said no.
+   TOutside   : outside the modelled fragment: std::sort leaves the order of rows that compare equal open, so the model
+                covers tables in which two rows that compare equal are the same row object (then every order of them is
+                the same content); also a table that starts with a HashMap.
+   UB         : a dangling reference, or the comparator would read out of a row / out of a value of another type for some
+                pair of rows (C08_sort_table_defined: neither happens on a well-formed heap) *)
+Inductive tsort := TSorted (l : list value) | TRefused (ds : list diag) | TOutside.
+
+Definition sort_table (h : heap) (asc : bool) (l : list value) : res tsort :=
+  match l with
+  | VRef r0 :: _ =>
+      match nth_error h r0 with
+      | Some (CArr row0) =>
+          (* 753: every element must be of the type of the first *)
+          rbind (res_map (vtag_of h) l) (fun tags =>
+          let bad := length (filter (fun g => negb (tag_eqb g GArr)) tags) in
+          if negb (Nat.eqb bad 0) then Ok (TRefused (repeat DExpectedArrayTypeMissmatch bad)) else
+          rbind (res_map (fun v => match row_of h v with Some r => Ok r | None => UB end) l) (fun rows =>
+          (* 759-766: the types of the first row, every row against them *)
+          rbind (res_map (vtag_of h) row0) (fun types =>
+          rbind (check_rows h types rows) (fun ds =>
+          match ds with
+          | _ :: _ => Ok (TRefused ds)
+          | [] =>
+              if negb (forallb (fun x => forallb (fun y => match vrow_lt h asc x y with Some _ => true | None => false end) l) l)
+              then UB
+              else if negb (pairwise (fun x y => vrow_ltb h asc x y || vrow_ltb h asc y x || veqb x y) l) then Ok TOutside
+              else Ok (TSorted (sort_by (fun x y => negb (vrow_ltb h asc y x)) l))
+          end))))
+      | Some (CMap _) => Ok TOutside
+      | _ => UB
+      end
+  | _ => Ok TOutside
+  end.
+
 Definition with1 (st : state) (x : opnd) (k : state -> value -> outcome) : outcome :=
   match eval_opnd st x with Some (st1, v) => k st1 v | None => invalid st end.
 Definition with2 (st : state) (x y : opnd) (k : state -> value -> value -> outcome) : outcome :=
@@ -915,7 +1040,7 @@ Definition step (d : defects) (st : state) (o : op) : outcome :=
         match arr_of st1 tv with
         | Some (a, l) => mk Done (upd st1 a (CArr (rev l))) [] VNil
         | None => invalid st end)
-  (* ops_generic.cpp:720-794, on lists of comparable scalars or of strings *)
+  (* ops_generic.cpp:736-817, on lists of comparable scalars, of strings, and on tables (arrays of rows: sort_table) *)
   | OpSort t asc =>
       with1 st t (fun st1 tv =>
         match arr_of st1 tv with
@@ -923,7 +1048,14 @@ Definition step (d : defects) (st : state) (o : op) : outcome :=
             if Nat.leb (length l) 1 then mk Done st1 [] VNil
             else if sortable_nums l then mk Done (upd st1 a (CArr (sort_by (num_le asc) l))) [] VNil
             else if sortable_strs l then mk Done (upd st1 a (CArr (sort_by (str_le asc) l))) [] VNil
-            else invalid st
+            else
+              (* a table: the array keeps its cell, its elements - the references to the row cells - are permuted *)
+              of_res st (sort_table (st_heap st1) asc l) (fun r =>
+                match r with
+                | TSorted l' => mk Done (upd st1 a (CArr l')) [] VNil
+                | TRefused ds => mk Done st1 ds VNil
+                | TOutside => invalid st
+                end)
         | None => invalid st end)
   | OpAssign dst x =>
       with1 st x (fun st1 v => assign_result st dst (mk Done st1 [] v))
